@@ -374,6 +374,10 @@ class Gen:
         if k < 3:
             self.tags.add('arrow-expr')
             body = self.expr(d)
+            if self.r.chance(1, 5):
+                # a concise body whose only operation is an optional-chain call of a configured method
+                self.tags.add('arrow-expr-only-optional-call')
+                body = self.r.choice([self.ident() + "?.", self.ident() + ".p?.", self.ident() + "?.q."]) + self.method() + "(" + self.r.choice(["", "1", self.ident()]) + ")"
             if p.startswith("async") and self.r.chance(1, 2):
                 body = "await " + self.operand(d) + " + " + self.ident()
             if body.startswith("{"):
@@ -820,6 +824,17 @@ MAP_OK = '{"version":3,"sources":["orig.ts"],"names":["n1"],"mappings":"AAAA,CAA
 MAP_INDEX = '{"version":3,"sections":[{"offset":{"line":0,"column":0},"map":{"version":3,"sources":["a.js"],"names":[],"mappings":"AAAA"}}]}'
 
 
+# valid maps of the shapes bundlers emit: several sources, the first mapping not in sources[0], embedded
+# sources, a sourceRoot, sources never referred to
+MAPS_VALID = [
+    MAP_OK,
+    '{"version":3,"file":"bundle.js","sources":["a.ts","b.ts"],"sourcesContent":["export const a = 1","export function f(a, b) { return a + b }"],"names":[],"mappings":"ACAA"}',
+    '{"version":3,"sources":["unused.ts","lib/x.ts","y.ts"],"names":["f","a"],"mappings":"AEAAA,SCAUC,IDAI;ADAA"}',
+    '{"version":3,"sourceRoot":"webpack://app/src","sources":["m.ts","n.ts"],"names":[],"mappings":"ACAA,KDAK"}',
+    '{"version":3,"sources":["only.ts"],"sourcesContent":[null],"names":[],"mappings":";;AAAA"}',
+]
+
+
 def mal_requests(seed, n):
     """arbitrary text, token-level mutations of valid programs, odd file names, every failure mode of
     the source-map reader"""
@@ -848,7 +863,7 @@ def mal_requests(seed, n):
             ref_kind = g.below(12)
             url = "x.map"
             if ref_kind == 0:
-                url = "data:application/json;base64," + base64.b64encode(MAP_OK.encode()).decode()
+                url = "data:application/json;base64," + base64.b64encode(g.choice(MAPS_VALID).encode()).decode()
             elif ref_kind == 1:
                 url = "data:application/json;base64," + base64.b64encode(b"{not json").decode()
             elif ref_kind == 2:
@@ -856,7 +871,7 @@ def mal_requests(seed, n):
             elif ref_kind == 3:
                 url = "data:application/json;base64," + base64.b64encode(MAP_INDEX.encode()).decode()
             elif ref_kind == 4:
-                url = "ok.map"; files = {"%PARENT%/ok.map": MAP_OK}
+                url = "ok.map"; files = {"%PARENT%/ok.map": g.choice(MAPS_VALID)}
             elif ref_kind == 5:
                 url = "missing.map"; files = {"%PARENT%/missing.map": {"error": "notfound"}}
             elif ref_kind == 6:
@@ -864,7 +879,7 @@ def mal_requests(seed, n):
             elif ref_kind == 7:
                 url = "denied.map"; files = {"%PARENT%/denied.map": {"error": "denied"}}
             elif ref_kind == 8:
-                url = "/abs/ok.map"; files = {"/abs/ok.map": MAP_OK}
+                url = "/abs/ok.map"; files = {"/abs/ok.map": g.choice(MAPS_VALID)}
             elif ref_kind == 9:
                 url = "bad.map"; files = {"%PARENT%/bad.map": "\u0000\u0001garbage"}
             elif ref_kind == 10:
